@@ -123,6 +123,26 @@ def body(ctx, case):
         with np.errstate(all="ignore"):
             os_, _ = run_prop(case, u * u.dtype.type(sfac))
         ctx.close(np.asarray(os_), sfac * out, TOL, "%s: P(s u) == s P(u)" % case["prop"], scale=sfac * (float(np.sqrt(np.sum(np.abs(out) ** 2))) or 1.0), name=case["prop"] + " amplitude homogeneity")
+    # scalar parameters read from a float32 table (wavelength, pixel scale, layer altitude): float(numpy.float32(x)) is one
+    # exact number; handing it over as the float32 scalar must not cost power conservation
+    if not case["np_scalars"] and not isinstance(case["z"], int) and case["m"] == 1.0:
+        c32 = dict(case, wvl=float(np.float32(case["wvl"])), d1=float(np.float32(case["d1"])), z=float(np.float32(case["z"])))
+        o = op()
+        N_ = u.shape[0]
+        for which in ("wvl", "d1", "z"):
+            args = {k: (np.float32(c32[k]) if k == which else c32[k]) for k in ("wvl", "d1", "z")}
+            with np.errstate(all="ignore"):
+                if case["prop"] == "angular":
+                    o32, dd = o.angularSpectrum(u, args["wvl"], args["d1"], c32["d1"], args["z"]), c32["d1"]
+                elif case["prop"] == "two":
+                    o32, dd = o.twoStepFresnel(u, args["wvl"], args["d1"], c32["d1"], args["z"]), c32["d1"]
+                elif case["prop"] == "one":
+                    o32, dd = o.oneStepFresnel(u, args["wvl"], args["d1"], args["z"]), abs(c32["wvl"] * c32["z"] / (N_ * c32["d1"]))
+                else:
+                    o32, dd = o.lensAgainst(u, args["wvl"], args["d1"], args["z"]), abs(c32["wvl"] * c32["z"] / (N_ * c32["d1"]))
+            p32in = float(np.sum(np.abs(u.astype(np.complex128)) ** 2)) * c32["d1"] ** 2
+            p32 = float(np.sum(np.abs(np.asarray(o32)) ** 2)) * dd ** 2
+            ctx.close(p32, p32in, TOL, "%s power conservation with %s given as a numpy.float32 scalar" % (case["prop"], which), scale=max(p32in, 1e-300), name=case["prop"] + " float32 scalar argument")
     a, b = case["a"], case["b"]
     with np.errstate(all="ignore"):
         ov, _ = run_prop(case, v)
